@@ -104,7 +104,7 @@ func famCond(o *Out, r *RNG, thorough bool) {
 	cur := "17c8a5e1b2c3d4e5f"
 	q := func(s string) string { return internal.ETag(s).String() }
 	headers := func(tag string) []string {
-		return []string{"", "*", q(tag), q("stale0"), q(tag + "x"), q(""), tag, "'" + tag + "'", "`" + tag + "`", "\"" + tag, tag + "\"", "W/" + q(tag), " " + q(tag), q(tag) + " ", "\"\\x\"", "**", " *", "\"a\"b\""}
+		return []string{"", "*", q(tag), q("stale0"), q(tag + "x"), q(""), tag, "'" + tag + "'", "`" + tag + "`", "\"" + tag, tag + "\"", "W/" + q(tag), " " + q(tag), q(tag) + " ", "\"\\x\"", "**", " *", "\"a\"b\"", "W/", "W", "\"", "W/\""}
 	}
 	for _, tag := range []string{cur, "a\"b", "é\\", "a b", "\xff"} {
 		hs := headers(tag)
